@@ -108,7 +108,8 @@ Record st := {
   hooks : nat;             (* nested.stop() calls *)
   hook_bad : bool;         (* ghost: a hook ran before nested.start() returned (and not instead of it) *)
   late : nat;              (* ghost: member accesses while freed *)
-  dangling : nat           (* ghost: flag stores after start() returned *)
+  dangling : nat;          (* ghost: flag stores after start() returned *)
+  lost : nat               (* ghost: try_complete calls that returned false *)
 }.
 
 Inductive ev :=
@@ -132,7 +133,7 @@ Definition init (p : params) : st :=
      syncp := false; flag := false; src := false; cb := CbNone; slot := SIdle;
      p0 := S0Reg; pA := A1Cas; pB := B2Set; destroyed := false; nst := NS0;
      freed := false; completions := []; hooks := 0; hook_bad := false; late := 0;
-     dangling := 0 |}.
+     dangling := 0; lost := 0 |}.
 
 (* ---- field updates ---------------------------------------------------------------------- *)
 Definition with_bits (s : st) (a b c d : bool) : st :=
@@ -140,69 +141,69 @@ Definition with_bits (s : st) (a b c d : bool) : st :=
      syncp := syncp s; flag := flag s; src := src s; cb := cb s; slot := slot s;
      p0 := p0 s; pA := pA s; pB := pB s; destroyed := destroyed s; nst := nst s;
      freed := freed s; completions := completions s; hooks := hooks s;
-     hook_bad := hook_bad s; late := late s; dangling := dangling s |}.
+     hook_bad := hook_bad s; late := late s; dangling := dangling s; lost := lost s |}.
 Definition with_sync (s : st) (sp f : bool) : st :=
   {| b_stop := b_stop s; b_start := b_start s; b_comp := b_comp s; b_sd := b_sd s;
      syncp := sp; flag := f; src := src s; cb := cb s; slot := slot s;
      p0 := p0 s; pA := pA s; pB := pB s; destroyed := destroyed s; nst := nst s;
      freed := freed s; completions := completions s; hooks := hooks s;
-     hook_bad := hook_bad s; late := late s; dangling := dangling s |}.
+     hook_bad := hook_bad s; late := late s; dangling := dangling s; lost := lost s |}.
 Definition with_src (s : st) (x : bool) (c : cbst) : st :=
   {| b_stop := b_stop s; b_start := b_start s; b_comp := b_comp s; b_sd := b_sd s;
      syncp := syncp s; flag := flag s; src := x; cb := c; slot := slot s;
      p0 := p0 s; pA := pA s; pB := pB s; destroyed := destroyed s; nst := nst s;
      freed := freed s; completions := completions s; hooks := hooks s;
-     hook_bad := hook_bad s; late := late s; dangling := dangling s |}.
+     hook_bad := hook_bad s; late := late s; dangling := dangling s; lost := lost s |}.
 Definition with_slot (s : st) (x : slotst) : st :=
   {| b_stop := b_stop s; b_start := b_start s; b_comp := b_comp s; b_sd := b_sd s;
      syncp := syncp s; flag := flag s; src := src s; cb := cb s; slot := x;
      p0 := p0 s; pA := pA s; pB := pB s; destroyed := destroyed s; nst := nst s;
      freed := freed s; completions := completions s; hooks := hooks s;
-     hook_bad := hook_bad s; late := late s; dangling := dangling s |}.
+     hook_bad := hook_bad s; late := late s; dangling := dangling s; lost := lost s |}.
 Definition with_p0 (s : st) (x : pc0) : st :=
   {| b_stop := b_stop s; b_start := b_start s; b_comp := b_comp s; b_sd := b_sd s;
      syncp := syncp s; flag := flag s; src := src s; cb := cb s; slot := slot s;
      p0 := x; pA := pA s; pB := pB s; destroyed := destroyed s; nst := nst s;
      freed := freed s; completions := completions s; hooks := hooks s;
-     hook_bad := hook_bad s; late := late s; dangling := dangling s |}.
+     hook_bad := hook_bad s; late := late s; dangling := dangling s; lost := lost s |}.
 Definition with_pA (s : st) (x : pcA) : st :=
   {| b_stop := b_stop s; b_start := b_start s; b_comp := b_comp s; b_sd := b_sd s;
      syncp := syncp s; flag := flag s; src := src s; cb := cb s; slot := slot s;
      p0 := p0 s; pA := x; pB := pB s; destroyed := destroyed s; nst := nst s;
      freed := freed s; completions := completions s; hooks := hooks s;
-     hook_bad := hook_bad s; late := late s; dangling := dangling s |}.
+     hook_bad := hook_bad s; late := late s; dangling := dangling s; lost := lost s |}.
 Definition with_pB (s : st) (x : pcB) : st :=
   {| b_stop := b_stop s; b_start := b_start s; b_comp := b_comp s; b_sd := b_sd s;
      syncp := syncp s; flag := flag s; src := src s; cb := cb s; slot := slot s;
      p0 := p0 s; pA := pA s; pB := x; destroyed := destroyed s; nst := nst s;
      freed := freed s; completions := completions s; hooks := hooks s;
-     hook_bad := hook_bad s; late := late s; dangling := dangling s |}.
+     hook_bad := hook_bad s; late := late s; dangling := dangling s; lost := lost s |}.
 Definition with_nst (s : st) (x : nstate) : st :=
   {| b_stop := b_stop s; b_start := b_start s; b_comp := b_comp s; b_sd := b_sd s;
      syncp := syncp s; flag := flag s; src := src s; cb := cb s; slot := slot s;
      p0 := p0 s; pA := pA s; pB := pB s; destroyed := destroyed s; nst := x;
      freed := freed s; completions := completions s; hooks := hooks s;
-     hook_bad := hook_bad s; late := late s; dangling := dangling s |}.
+     hook_bad := hook_bad s; late := late s; dangling := dangling s; lost := lost s |}.
 Definition with_destroyed (s : st) : st :=
   {| b_stop := b_stop s; b_start := b_start s; b_comp := b_comp s; b_sd := b_sd s;
      syncp := syncp s; flag := flag s; src := src s; cb := cb s; slot := slot s;
      p0 := p0 s; pA := pA s; pB := pB s; destroyed := true; nst := nst s;
      freed := freed s; completions := completions s; hooks := hooks s;
-     hook_bad := hook_bad s; late := late s; dangling := dangling s |}.
+     hook_bad := hook_bad s; late := late s; dangling := dangling s; lost := lost s |}.
 (* the receiver is completed with [o] *)
 Definition complete (s : st) (o : outcome) : st :=
   {| b_stop := b_stop s; b_start := b_start s; b_comp := b_comp s; b_sd := b_sd s;
      syncp := syncp s; flag := flag s; src := src s; cb := cb s; slot := slot s;
      p0 := p0 s; pA := pA s; pB := pB s; destroyed := destroyed s; nst := nst s;
      freed := true; completions := o :: completions s; hooks := hooks s;
-     hook_bad := hook_bad s; late := late s; dangling := dangling s |}.
+     hook_bad := hook_bad s; late := late s; dangling := dangling s; lost := lost s |}.
 (* a nested.stop() call; [ok] = it is legitimate at this point *)
 Definition hook (s : st) (ok : bool) : st :=
   {| b_stop := b_stop s; b_start := b_start s; b_comp := b_comp s; b_sd := b_sd s;
      syncp := syncp s; flag := flag s; src := src s; cb := cb s; slot := slot s;
      p0 := p0 s; pA := pA s; pB := pB s; destroyed := destroyed s; nst := nst s;
      freed := freed s; completions := completions s; hooks := S (hooks s);
-     hook_bad := hook_bad s || negb ok; late := late s; dangling := dangling s |}.
+     hook_bad := hook_bad s || negb ok; late := late s; dangling := dangling s; lost := lost s |}.
 (* an access to a member of the operation *)
 Definition touch (s : st) : st :=
   {| b_stop := b_stop s; b_start := b_start s; b_comp := b_comp s; b_sd := b_sd s;
@@ -210,13 +211,20 @@ Definition touch (s : st) : st :=
      p0 := p0 s; pA := pA s; pB := pB s; destroyed := destroyed s; nst := nst s;
      freed := freed s; completions := completions s; hooks := hooks s;
      hook_bad := hook_bad s; late := if freed s then S (late s) else late s;
-     dangling := dangling s |}.
+     dangling := dangling s; lost := lost s |}.
 Definition dangle (s : st) : st :=
   {| b_stop := b_stop s; b_start := b_start s; b_comp := b_comp s; b_sd := b_sd s;
      syncp := syncp s; flag := flag s; src := src s; cb := cb s; slot := slot s;
      p0 := p0 s; pA := pA s; pB := pB s; destroyed := destroyed s; nst := nst s;
      freed := freed s; completions := completions s; hooks := hooks s;
-     hook_bad := hook_bad s; late := late s; dangling := S (dangling s) |}.
+     hook_bad := hook_bad s; late := late s; dangling := S (dangling s); lost := lost s |}.
+
+Definition lose (s : st) : st :=
+  {| b_stop := b_stop s; b_start := b_start s; b_comp := b_comp s; b_sd := b_sd s;
+     syncp := syncp s; flag := flag s; src := src s; cb := cb s; slot := slot s;
+     p0 := p0 s; pA := pA s; pB := pB s; destroyed := destroyed s; nst := nst s;
+     freed := freed s; completions := completions s; hooks := hooks s;
+     hook_bad := hook_bad s; late := late s; dangling := dangling s; lost := S (lost s) |}.
 
 Definition b2n (b : bool) : nat := if b then 1 else 0.
 (* the value of state_ *)
@@ -242,7 +250,7 @@ Definition tc_step (p : params) (tid : nat) (o : outcome) (t : tpc) (s : st)
       let old := stv s in
       let s2 := with_bits s1 (b_stop s) (b_start s) true (b_sd s) in
       let e := [EStOr old (stv s2)] in
-      if b_comp s then Some (s2, e, TRet)
+      if b_comp s then Some (lose s2, e, TRet)
       else
         let nxt :=
           if fx p then
